@@ -134,8 +134,14 @@ func zzCanary() *ExtendedDaemonSetSpecStrategyCanary {
 		NoRestartsDuration: zzOptDur("noRestartsDuration"),
 		ValidationMode:     ExtendedDaemonSetSpecStrategyCanaryValidationMode(nondet.String("validationMode", "", "auto", "manual")),
 	}
-	if nondet.Bool("nodeSelector.set") {
+	// the canary node selector: absent, empty, by labels, or by expressions only
+	switch nondet.String("nodeSelector", "unset", "empty", "labels", "expressions") {
+	case "empty":
 		c.NodeSelector = &metav1.LabelSelector{}
+	case "labels":
+		c.NodeSelector = &metav1.LabelSelector{MatchLabels: map[string]string{"canary": "yes"}}
+	case "expressions":
+		c.NodeSelector = &metav1.LabelSelector{MatchExpressions: []metav1.LabelSelectorRequirement{{Key: "pool", Operator: metav1.LabelSelectorOpIn, Values: []string{"canary"}}}}
 	}
 	if nondet.Bool("autoPause.set") {
 		c.AutoPause = &ExtendedDaemonSetSpecStrategyCanaryAutoPause{
@@ -192,6 +198,21 @@ func ZZ_C16_canary() {
 			zzKeepsDur(user.AutoFail.MaxRestartsDuration, once.AutoFail.MaxRestartsDuration), zzKeepsDur(user.AutoFail.CanaryTimeout, once.AutoFail.CanaryTimeout))
 	}
 	nondet.Assert("C16.canary.keeps", keeps)
+	// "defaulting changes no value the user set": a node selector the user wrote is kept as written
+	if user.NodeSelector != nil {
+		got := once.NodeSelector
+		same := got != nil && len(got.MatchLabels) == len(user.NodeSelector.MatchLabels) && len(got.MatchExpressions) == len(user.NodeSelector.MatchExpressions)
+		if same {
+			for k, v := range user.NodeSelector.MatchLabels {
+				same = same && got.MatchLabels[k] == v
+			}
+			for i, e := range user.NodeSelector.MatchExpressions {
+				g := got.MatchExpressions[i]
+				same = same && g.Key == e.Key && g.Operator == e.Operator && len(g.Values) == len(e.Values) && (len(e.Values) == 0 || g.Values[0] == e.Values[0])
+			}
+		}
+		nondet.Assert("C16.canary.keeps-node-selector", same)
+	}
 
 	// validation of the defaulted spec: returns, never panics (a panic ends the path as a violation)
 	spec := &ExtendedDaemonSetSpec{}
